@@ -327,11 +327,14 @@ func runC01(c *core.Ctx) {
 		}
 		for size := 1; size <= maxSize && ok; size++ {
 			ok = full.EnumStmt(size, func(n *gen.N) bool {
+				if !gen.ControlWellFormed([]*gen.N{n}) {
+					return true // break/continue/return outside their construct: no documented semantics (left to C07)
+				}
 				src := gen.Render([]*gen.N{n}, gen.Policy{StmtSep: "\n"})
 				return do("wild", "a = 3; b = [1, 2]\n"+src)
 			})
 		}
-		bounds = append(bounds, fmt.Sprintf("G-syn: every tree of size <=%d evaluated with a=3, b=[1,2] bound", maxSize))
+		bounds = append(bounds, fmt.Sprintf("G-syn: every tree of size <=%d whose break/continue/return are placed in their construct, evaluated with a=3, b=[1,2] bound", maxSize))
 	}
 	c.P.States = c.P.Traces
 	c.P.Bound = strings.Join(bounds, "; ") + "; each in the plain (no registers, cache off) and default configuration"
